@@ -10,10 +10,10 @@ import (
 // Domain parameters from FIPS 186-4 App. D.1.2 / SEC 2.
 
 type Curve struct {
-	Name      string
-	P, B, N   *big.Int
-	Gx, Gy    *big.Int
-	ByteLen   int // octets per field element
+	Name    string
+	P, B, N *big.Int
+	Gx, Gy  *big.Int
+	ByteLen int // octets per field element
 }
 
 func hx(s string) *big.Int {
